@@ -139,14 +139,14 @@ func NewConfiguration(options map[string]string) *Configuration {
 		config.GoModule = val
 	}
 	fromLeft := false
-	padChar := " "
+	padChar := "' '"
 	if val, ok := options[FixedStringPadFromLeft]; ok {
 		fromLeft = strings.ToLower(val) == "true"
 	}
 	if val, ok := options[FixedStringPadChar]; ok {
 		padChar = val
 	}
-	if fromLeft || padChar != " " {
+	if fromLeft || padChar != "' '" {
 		config.Padding = &Padding{
 			PadLeft: fromLeft,
 			PadChar: padChar,
